@@ -10,6 +10,7 @@ import (
 	"io"
 	"os"
 	"path/filepath"
+	"sort"
 	"strings"
 
 	"github.com/hashicorp/go-slug/internal/ignorefiles"
@@ -587,6 +588,13 @@ func (p *Packer) Unpack(r io.Reader, dst string) error {
 		}
 	}
 
+	// Restore the deepest directories first: once a directory has its recorded
+	// mode it may no longer be searchable (for an unprivileged user), and
+	// nothing below it could be restored after that. The sort is stable, so
+	// that of several entries for one directory the last still wins.
+	sort.SliceStable(directoriesExtracted, func(i, j int) bool {
+		return pathDepth(directoriesExtracted[i].Path) > pathDepth(directoriesExtracted[j].Path)
+	})
 	for _, dir := range directoriesExtracted {
 		if err := dir.RestoreInfo(); err != nil {
 			return err
@@ -594,6 +602,11 @@ func (p *Packer) Unpack(r io.Reader, dst string) error {
 	}
 
 	return nil
+}
+
+// pathDepth counts the separators of the cleaned path.
+func pathDepth(p string) int {
+	return strings.Count(filepath.Clean(p), string(filepath.Separator))
 }
 
 // Given a "root" directory, the path to a symlink within said root, and the
